@@ -11,7 +11,7 @@ CHECKS = {
  'C01': ('exploration',
          'bounded-exhaustive enumeration of memory images x environment answers on the real engines vs a reference machine',
          'Every image over a symbolic word alphabet (all address classes relative to the op, the IO cells, segment ends, '
-         'top of the address space) for several segment layouts (incl. several lazily-zero segments listed in descending address order, chains through 33..131 scattered pages, the catalog programs of the repository), every 0/1/EOF input behaviour within the read bound, on '
+         'top of the address space) for several segment layouts (incl. several lazily-zero segments listed in descending address order, chains through 33..131 scattered pages, a far segment crossing a 16K-word page edge, the catalog programs of the repository), every 0/1/EOF input behaviour within the read bound, on '
          'featured(+trace)/fast/native with and without the last-ops ring at w=8/16/32/64; compared op by op with the '
          'reference machine (ip/flip/jump trace, IO calls, cause, op count, fault address). A coverage statement over a '
          'small scope, which is where per-op boundary bugs live.',
@@ -52,7 +52,7 @@ CHECKS = {
          'exhaustive device-access scripts injected at every IO call x engines x storage modes vs R1 with device ops; explicit-state search of the screen command decoder vs a model',
          'Every sequence of <= 2 (3 thorough) device operations (read/write word, read/write packed byte) over in-segment '
          'addresses chosen to collide with what the program does next (next op flip/jump word, the flip / jump word and IO cell of the output op that is executing, flip targets, lazily-zero tail, '
-         'segment ends, far page) x values (0, all-ones, redirecting addresses, the w=64 fill constant) injected at each IO call, '
+         'segment ends, far page) x values (0, all-ones, redirecting addresses, the w=64 fill constant) injected at each IO call and inside attach_memory, '
          'on 11 engine/storage modes: returned values, later program behaviour and final memory must equal R1 extended with the '
          'documented DeviceMemory semantics. The screen decoder is searched at byte level (every byte string to depth 8/9) and at '
          'command level (all sequences of up to 3/4 commands over ~60 commands, and all mode-switch streams of up to 5/6 commands over 3 modes, 2 palettes and 4 presenters) against a model written from the docstring; the '
@@ -82,7 +82,7 @@ CHECKS = {
          'DESIGN.md section 3 C10'),
  'C02': ('exploration',
          'exhaustive enumeration of primitive-statement sequences x width x version vs a denotational assembler model with a behavioural wflip chain walker',
-         'All sequences of up to 3 statements over 36 shapes (ops over literals, backward/forward labels, $, constants, label+-k*w, jump words and return addresses that do not fit; '
+         'All sequences of up to 3 statements over 36 shapes (ops over literals, backward/forward labels, $, constants, label+-k*w, jump words and return addresses that do not fit, negative wflip values, unary-minus precedence; '
          'seven wflip forms forcing shared / unshared chains; pad 1/2/4; seven segment placements (incl. one that leaves room for exactly two ops below 2^w); four reserves), depth 4 over a '
          '12-shape core and depth 5 over a 6-shape core (all of depth 4 in thorough), at w=8/16/32/64 and fjm versions: if the '
          'layout is possible the program must assemble and every statement word, label, reserved range and segment must match '
@@ -107,7 +107,7 @@ CHECKS = {
          '16 skeletons (param vs caller label, @ local vs argument, nested argument capture, rep iterator vs names, nested rep, '
          'caller label spelled like an iterator two levels down, arity overloading, < globals and > externs, namespaces with '
          '.rel and ..rel names, $, a local passed down, a label declared through a parameter, rep counts 0/1/3, three call '
-         'levels with equal names, iterator spelled like its own macro parameter, relative names climbing to the root, a rep that does not use its iterator) x every assignment of the pool {a,b,i} to '
+         'levels with equal names, iterator spelled like its own macro parameter, relative names climbing to the root, a rep that does not use its iterator, guarded and mutual recursion, an expansion that emits nothing, parameters in pad / wflip statements, a label declared by several expansions) and call chains of 45..898 macros x every assignment of the pool {a,b,i} to '
          'the name slots (about 2 800 well-formed programs, 2 660 with a collision) x w x every 2-way file split: the image '
          'must equal the image of the program inlined by R4 on the AST; every worker process first assembles a program defining '
          'a, b, i as constants and then assembles every program next to the stl as well (no capture across assemblies).',
@@ -117,7 +117,7 @@ CHECKS = {
          'exhaustive error templates (error class x evaluation stage x width x version) and all single-token mutations of seed programs; outcome classification',
          '5 arithmetic faults x 16 evaluation stages (parse-time folding, constant definition/use, macro argument, rep count / '
          'iterator, pad / segment / reserve argument, late label resolution in flip / jump / wflip / segment, $) and ~75 further '
-         'error templates (lexing, syntax, macros incl. recursion through rep, labels, constants, directives, ranges, files) at every width and version, '
+         'error templates (lexing, syntax, macros incl. recursion through rep, nesting right below / above the default depth, labels declared twice through expansions, diagnostics raised under a label-counted rep, labels, constants, directives, ranges, files) at every width and version, '
          'every sequence of <= 3 (4 thorough) primitive statements over a 16-statement alphabet, 45 long-token sources each in its own killable child process (a stall inside C code),  plus every deletion / duplication / swap / substitution (41-token alphabet) of every token of four seed programs (one '
          'with the stl): the outcome must be success or a FlipJumpException that is not the generic "Unknown exception" funnel '
          '(and names the offending identifier for templates that carry one), within 30 s, leaving no loadable output file.',
@@ -138,7 +138,7 @@ CHECKS = {
          'explicit-state search over (operand values x block scratch residue) of every documented hex macro form executed by the real stl on the working-tree native engine; whole-image frame invariant',
          'About 60 hex macro forms (memory, logic, add/sub and their shifted / constant forms, inc/dec/neg/abs, shifts, count_bits, '
          'sign_extend, mul, mul10, add_mul, div, idiv with every rem_opt, if/if0/if1/sign/cmp/scmp/min/max/if_flags, single-hex '
-         'forms, in-place div forms with q / r aliasing an input) as blocks of one assembled program: n=1 and n=2 exhaustively (65 536 operand pairs per two-operand block), '
+         'forms, in-place div forms with q / r aliasing an input, constants with zero low hexes) as blocks of one assembled program: n=1 and n=2 exhaustively (65 536 operand pairs per two-operand block), '
          'every vector length 3..20 (thorough ..40, 64, 130) over a boundary alphabet, w=64/32(/16). Every transition checks the '
          'destination value against the doc-comment formula, the documented exit, and that NO other word of the whole memory image '
          'changed (no stale carry / table state); every distinct scratch residue a block leaves is re-explored against every '
@@ -159,7 +159,7 @@ CHECKS = {
          'ptr_index and read_nth/write_nth with negative indices, ptr_flip, ptr_flip_dbit, ptr_wflip, ptr_wflip_2nd_word, ptr_jump) at '
          'w=64/32 and 8 bit-namespace pointer macros at w=64/32/16, over all 64 ordered (previous target, target) pairs of an 8-cell '
          'fenced buffer x cell and value alphabets (all 256 values of the pointed cell on a short target chain; the buffer straddles a 0x10000-bit carry boundary of pointer arithmetic): exactly the pointed cell / destination changes (whole-image frame invariant, guard '
-         'cells, every other variable) and to_flip / to_jump mirror their _var copies. Stack: every sequence of <= 4 (6 thorough) '
+         'cells, every other variable) and to_flip / to_jump mirror their _var copies. Stack (declared capacity = the deepest explored depth, so it gets exactly full): every sequence of <= 4 (6 thorough) '
          'operations over push/pop of hexes, bytes, 3- and 4-vectors and sp_inc/dec within depth 0..6 against a Python list (popped '
          'values, sp, every stack cell, get_sp). Calls: every call tree of depth <= 2 (3), fan-out <= 2 over call / call with a '
          'stack parameter / fcall-fret as a whole program; the printed markers must be the pre/post-order walk.',
@@ -201,7 +201,7 @@ CHECKS = {
          'garbage, continue, the three continue-all spellings incl. mixed case, reads of words / unaligned / unmapped addresses / hex, bit '
          'and byte variables over a data segment with distinctive bits, help, unknown commands, empty lines, quit; running out = EOF) x '
          'every breakpoint subset of size <= 2 of the visited addresses + a never-visited one x 12 programs per width, through '
-         'fjm_run.run(breakpoint_handler=...), plus sessions whose breakpoints are asked for by label (all subsets of 3 existing + 3 unknown labels) and by substring sets (incl. regular-expression metacharacters), and reads of the word the program will fault on: pause list (address, ops executed), values shown by reads, quit => keyboard-interrupt at '
+         'fjm_run.run(breakpoint_handler=...), plus sessions whose breakpoints are asked for by label (all subsets of 3 existing + 3 unknown labels) and by substring sets (incl. regular-expression metacharacters) - twice on one debug-file path with other addresses -, and reads of the word the program will fault on: pause list (address, ops executed), values shown by reads, quit => keyboard-interrupt at '
          'the pause op count, otherwise output / IO calls / cause / op count / final memory equal the undebugged reference run.',
          'Messages are parsed only for addresses, op counts and values. Label / substring breakpoints are resolved in C16.',
          'DESIGN.md section 3 C15'),
@@ -211,7 +211,7 @@ CHECKS = {
          'thorough adds w=16, --werror and all combinations) through `fj files -o`, `fj --asm -o` + `fj --run` (subprocesses of '
          'python -m flipjump.flipjump_cli on the working tree) and the Python API with the same explicit options: the three .fjm '
          '(and .fjd) files must be byte-identical, header width/version as requested or defaulted, program output and termination '
-         'identical (six spellings of one source path incl. a symlinked directory + `..`; every history of <= 3 API runs on the default terminal device vs fresh fj processes; the API routes run in a process where a caller has taken flipjump.get_stl_paths() and appended to / truncated / reversed its list); defaults observed directly: temporary file of the one-step flow is width 64 / version 1, with -o version 3, stl '
+         'identical (a warning-raising program x --werror x -s x width x version; six spellings of one source path incl. a symlinked directory + `..`; every history of <= 3 API runs on the default terminal device vs fresh fj processes; the API routes run in a process where a caller has taken flipjump.get_stl_paths() and appended to / truncated / reversed its list); defaults observed directly: temporary file of the one-step flow is width 64 / version 1, with -o version 3, stl '
          'included unless --no_stl.',
          'The one-step temporary file is observed by wrapping flipjump_cli.TemporaryDirectory in-process.',
          'DESIGN.md section 3 C20'),
